@@ -1,4 +1,4 @@
-\* system contract + user contract, one slot, <= 4 blocks, <= 2 diff entries, no transactions
+\* system contract + user contract, one slot, <= 3 blocks, <= 2 diff entries, no transactions
 \* measured: 15 688 distinct states, ~15 s on 4 workers
 CONSTANTS
   Users = {"c1"}
@@ -9,14 +9,16 @@ CONSTANTS
   Sierra = {}
   TxIds = {}
   L1Txs = {}
-  MaxBlocks = 4
+  MaxBlocks = 3
   MaxOps = 2
   MaxTxs = 0
   Vers = {0}
   FixH4 = TRUE
   SysZeroWrites = FALSE
+  FilterReorgInBatch = TRUE
 INIT RInit
 NEXT RNext
 VIEW rview
-INVARIANTS TypeOK RevertNeverFails ReadsAgree HeadAgrees NoOrphanLogs Canon IdxCanon IdxSound
+INVARIANTS TypeOK RevertNeverFails ReadsAgree HeadAgrees NoOrphanLogs Canon IdxCanon IdxSound FilterCoversChain
+PROPERTIES RRestartIsNoOp
 CHECK_DEADLOCK FALSE
